@@ -4,6 +4,7 @@ import (
 	"crypto/sha256"
 	"encoding/hex"
 	"fmt"
+	"regexp"
 	"sort"
 	"strings"
 	"sync"
@@ -308,6 +309,27 @@ func (r *Run) SleepUntil(max time.Duration, cond func() bool) bool {
 			r.NextStep()
 		}
 	}
+}
+
+var uuidRe = regexp.MustCompile(`[0-9a-f]{8}-[0-9a-f]{4}-[0-9a-f]{4}-[0-9a-f]{4}-[0-9a-f]{12}`)
+
+// CanonHash is the behaviour fingerprint: the log with uuids renamed to first-occurrence indices.
+func (r *Run) CanonHash() string {
+	h := sha256.New()
+	names := map[string]string{}
+	for _, l := range r.Log {
+		l = uuidRe.ReplaceAllStringFunc(l, func(u string) string {
+			if n, ok := names[u]; ok {
+				return n
+			}
+			n := fmt.Sprintf("U%d", len(names))
+			names[u] = n
+			return n
+		})
+		h.Write([]byte(l))
+		h.Write([]byte{'\n'})
+	}
+	return hex.EncodeToString(h.Sum(nil))[:16]
 }
 
 // LogHash is the determinism fingerprint of the run.
